@@ -5,9 +5,9 @@
 set -u
 cd /verif
 related() { case "$1" in
-  C01) echo "C01 C03 C16 C06 C04";; C02) echo "C02 C17 C01 C06 C03 C12";; C03) echo "C03 C01 C16 C15";; C04) echo "C04 C16 C05 C06";; C05) echo "C05 C16 C04";;
-  C06) echo "C06 C07 C12";; C07) echo "C07 C13 C06";; C08) echo "C08 C09 C18 C06";; C09) echo "C09 C08 C16";; C10) echo "C10 C08 C16 C15";;
-  C11) echo "C11 C17 C01 C12";; C12) echo "C12 C17 C07 C18";; C13) echo "C13 C07";; C14) echo "C14 C08 C07";; C15) echo "C15 C16 C04 C06";;
+  C01) echo "C01 C03 C16 C06 C04";; C02) echo "C02 C17 C01 C06 C03 C12";; C03) echo "C03 C01 C16 C15 C12";; C04) echo "C04 C16 C05 C06";; C05) echo "C05 C16 C04 C12";;
+  C06) echo "C06 C07 C12";; C07) echo "C07 C13 C06";; C08) echo "C08 C09 C18 C06";; C09) echo "C09 C08 C16 C12";; C10) echo "C10 C08 C16 C15";;
+  C11) echo "C11 C17 C01 C12";; C12) echo "C12 C17 C07 C18";; C13) echo "C13 C07";; C14) echo "C14 C08 C07 C06";; C15) echo "C15 C16 C04 C06";;
   C16) echo "C16 C04 C15";; C17) echo "C17 C02 C11";; C18) echo "C18 C08";; negctl) echo "C01 C02 C03 C04 C05 C06 C07 C08 C09 C10 C11 C12 C13 C14 C15 C16 C17 C18";; esac; }
 names=("$@"); if [ ${#names[@]} -eq 0 ]; then names=($(ls seeded | grep -v RESULTS)); fi
 for n in "${names[@]}"; do
